@@ -104,6 +104,7 @@ PROPS["C01"] = dict(
         "Zrnt.Proofs.C01.M_block_refines_S_deneb",
         "Zrnt.Proofs.C01.M_block_refines_S",
         "Zrnt.Proofs.C01.admissible_forks",
+        "Zrnt.Proofs.C01.stateTransition_allForks_eq",
         "Zrnt.Proofs.C01.ctx_frames",
         "Zrnt.Proofs.C01.sameCommittees_initiate",
     ],
